@@ -229,6 +229,11 @@ def _attempt(prop, tier, fn, level, inline_set=()):
     ctx.inline_set = tuple(sorted(inline_set))
     ok = False
     try:
+        try:
+            from . import common
+            common.prelude(ctx)
+        except Inconclusive:
+            pass        # the property's own rules name the role that cannot be read
         fn(ctx)
         ok = True
     except Inconclusive as e:
